@@ -7,6 +7,9 @@
 mod enc;
 mod iv;
 mod conf;
+mod accum;
+#[cfg(feature = "serde")]
+mod serde_ops;
 
 use serde_json::{json, Value};
 use std::io::{BufRead, BufWriter, Write};
@@ -38,6 +41,13 @@ fn dispatch(case: &Value) -> Vec<Value> {
         iv::run(case)
     } else if op.starts_with("conf.") {
         conf::run(case)
+    } else if op.starts_with("accum.") {
+        accum::run(case)
+    } else if op.starts_with("serde.") {
+        #[cfg(feature = "serde")]
+        { serde_ops::run(case) }
+        #[cfg(not(feature = "serde"))]
+        { vec![json!({"op": "harness.unknown", "case": case})] }
     } else {
         vec![json!({"op": "harness.unknown", "case": case})]
     }
@@ -53,17 +63,31 @@ fn main() {
     let input = std::fs::File::open(&args[2]).expect("open cases");
     let out = std::fs::File::create(&args[3]).expect("create trace");
     let mut w = BufWriter::new(out);
+    let lines: Vec<String> = std::io::BufReader::new(input)
+        .lines()
+        .map(|l| l.expect("read"))
+        .filter(|l| !l.trim().is_empty())
+        .collect();
+    // cases are independent: execute in parallel, write in case order
+    use rayon::prelude::*;
+    let threads = std::env::var("HARNESS_THREADS").ok().and_then(|s| s.parse().ok()).unwrap_or(8usize);
+    let pool = rayon::ThreadPoolBuilder::new().num_threads(threads).build().unwrap();
+    let results: Vec<(Option<Value>, Vec<Value>)> = pool.install(|| {
+        lines
+            .par_iter()
+            .map(|line| {
+                let case: Value = serde_json::from_str(line).expect("case json");
+                let evs = dispatch(&case);
+                (case.get("cid").cloned(), evs)
+            })
+            .collect()
+    });
     let mut id: i64 = 0;
-    for line in std::io::BufReader::new(input).lines() {
-        let line = line.expect("read");
-        if line.trim().is_empty() {
-            continue;
-        }
-        let case: Value = serde_json::from_str(&line).expect("case json");
-        for mut ev in dispatch(&case) {
+    for (cid, evs) in results {
+        for mut ev in evs {
             id += 1;
             ev["id"] = json!(id);
-            if let Some(c) = case.get("cid") {
+            if let Some(c) = &cid {
                 ev["cid"] = c.clone();
             }
             writeln!(w, "{}", ev).unwrap();
